@@ -106,14 +106,28 @@ const (
 	c27PartialFrame                    // read + decide, announce N bytes, send fewer, close
 	c27WrongCorr                       // read + decide, well-formed reply with another correlation id
 	c27ReplyThenClose                  // well-formed reply, then the connection is closed (stale in the proxy pool)
+	// replies that decode but do not match the sub-request (finding C27-incomplete-backend-reply)
+	c27Omit      // last topic (>=2 topics) or last partition entry missing
+	c27EmptyBody // no topics at all, error code 0 (what the real broker's buildErrorResponse sends)
+	c27Extra     // an additional partition entry that was never requested
+	c27DupEntry  // the first partition entry twice
 )
 
-var c27BehavNames = []string{"ok", "close-before-read", "close-after-read", "garbage", "truncated", "partial-frame", "wrong-corr", "reply-then-close"}
+const c27FindingIncomplete = "C27-incomplete-backend-reply"
+
+func (b c27Behav) mismatched() bool {
+	return b == c27Omit || b == c27EmptyBody || b == c27Extra || b == c27DupEntry
+}
+
+var c27BehavNames = []string{"ok", "close-before-read", "close-after-read", "garbage", "truncated", "partial-frame", "wrong-corr", "reply-then-close",
+	"omit-entries", "empty-body", "extra-entry", "duplicate-entry"}
 
 func (b c27Behav) String() string { return c27BehavNames[b] }
 
 // reply carried the broker's per-partition answers in a decodable form
-func (b c27Behav) reported() bool { return b == c27OK || b == c27WrongCorr || b == c27ReplyThenClose }
+func (b c27Behav) reported() bool {
+	return b == c27OK || b == c27WrongCorr || b == c27ReplyThenClose || b.mismatched()
+}
 
 type c27TP struct {
 	Topic string // name
@@ -233,7 +247,7 @@ func c27DrawCase(t *rapid.T) c27Case {
 			c.Routes[k] = "9" // lease held by a broker id that cluster metadata does not list
 		}
 	}
-	behavGen := rapid.SampledFrom([]c27Behav{c27OK, c27OK, c27CloseAfterRead, c27OK, c27ReplyThenClose, c27OK, c27Truncated, c27OK, c27CloseBeforeRead,
+	behavGen := rapid.SampledFrom([]c27Behav{c27OK, c27OK, c27CloseAfterRead, c27Omit, c27OK, c27EmptyBody, c27OK, c27Extra, c27DupEntry, c27OK, c27ReplyThenClose, c27OK, c27Truncated, c27OK, c27CloseBeforeRead,
 		c27OK, c27WrongCorr, c27OK, c27Garbage, c27OK, c27PartialFrame, c27OK})
 	downs := 0
 	for b := 0; b < nb; b++ {
@@ -416,7 +430,7 @@ func (b *c27Broker) serve(conn net.Conn) {
 			return
 		}
 		switch behav {
-		case c27OK:
+		case c27OK, c27Omit, c27EmptyBody, c27Extra, c27DupEntry:
 			if protocol.WriteFrame(conn, reply) != nil {
 				return
 			}
@@ -497,6 +511,24 @@ func (b *c27Broker) decide(behav c27Behav, hdr *protocol.RequestHeader, req kmsg
 			}
 			out.Topics = append(out.Topics, rt)
 		}
+		switch {
+		case behav == c27EmptyBody:
+			out.Topics = nil
+		case behav == c27Omit && len(out.Topics) >= 2:
+			out.Topics = out.Topics[:len(out.Topics)-1]
+		case behav == c27Omit && len(out.Topics) == 1:
+			lt := &out.Topics[0]
+			if lt.Partitions = lt.Partitions[:len(lt.Partitions)-1]; len(lt.Partitions) == 0 {
+				out.Topics = nil
+			}
+		case behav == c27Extra && len(out.Topics) > 0:
+			b.cl.token++
+			rp := kmsg.NewProduceResponseTopicPartition()
+			rp.Partition, rp.BaseOffset = 77, b.cl.token
+			out.Topics[0].Partitions = append(out.Topics[0].Partitions, rp)
+		case behav == c27DupEntry && len(out.Topics) > 0 && len(out.Topics[0].Partitions) > 0:
+			out.Topics[0].Partitions = append(out.Topics[0].Partitions, out.Topics[0].Partitions[0])
+		}
 		resp = out
 	case *kmsg.FetchRequest:
 		d.Kind = "fetch"
@@ -536,6 +568,24 @@ func (b *c27Broker) decide(behav c27Behav, hdr *protocol.RequestHeader, req kmsg
 				rt.Partitions = append(rt.Partitions, rp)
 			}
 			out.Topics = append(out.Topics, rt)
+		}
+		switch {
+		case behav == c27EmptyBody:
+			out.Topics = nil
+		case behav == c27Omit && len(out.Topics) >= 2:
+			out.Topics = out.Topics[:len(out.Topics)-1]
+		case behav == c27Omit && len(out.Topics) == 1:
+			lt := &out.Topics[0]
+			if lt.Partitions = lt.Partitions[:len(lt.Partitions)-1]; len(lt.Partitions) == 0 {
+				out.Topics = nil
+			}
+		case behav == c27Extra && len(out.Topics) > 0:
+			b.cl.token++
+			rp := kmsg.NewFetchResponseTopicPartition()
+			rp.Partition, rp.HighWatermark, rp.LastStableOffset, rp.LogStartOffset = 77, b.cl.token, b.cl.token, 0
+			out.Topics[0].Partitions = append(out.Topics[0].Partitions, rp)
+		case behav == c27DupEntry && len(out.Topics) > 0 && len(out.Topics[0].Partitions) > 0:
+			out.Topics[0].Partitions = append(out.Topics[0].Partitions, out.Topics[0].Partitions[0])
 		}
 		resp = out
 	default:
@@ -1006,6 +1056,70 @@ func TestVF_C27_Fanout(t *testing.T) {
 	env := &c27Env{cli: cli}
 	rapid.Check(t, func(t *rapid.T) {
 		st.Eval()
-		c27Check(t, st, env, c27DrawCase(t))
+		c := c27DrawCase(t)
+		if vfkit.Known(c27FindingIncomplete) {
+			// listed finding: backends whose decodable reply does not match the sub-request are
+			// excluded by construction (they answer completely instead); generated again as soon
+			// as the finding is no longer listed
+			excluded := false
+			for bi := range c.Brokers {
+				for k, bh := range c.Brokers[bi].Behav {
+					if bh.mismatched() {
+						c.Brokers[bi].Behav[k] = c27OK
+						excluded = true
+					}
+				}
+			}
+			if excluded {
+				st.ExcludedCase(c27FindingIncomplete)
+			}
+		}
+		c27Check(t, st, env, c)
 	})
+}
+
+// c27WitnessCase: one backend, no router, {a/0, a/1}; the backend's first reply has the given shape.
+func c27WitnessCase(kind string, version int16, shape c27Behav) c27Case {
+	rq := c27Request{Kind: kind, Version: version, Acks: -1, Topics: []c27ReqTopic{{Name: "a", Parts: []c27ReqPart{
+		{Part: 0, Tag: "witness-records-a-0"}, {Part: 1, Tag: "witness-records-a-1"}}}}}
+	return c27Case{NoRouter: true, Static: true, Routes: map[string]string{}, RealOwner: map[string]int{"a/0": 0, "a/1": 0},
+		Brokers:  []c27Script{{Behav: []c27Behav{shape}, Codes: map[string][]int16{"a/0": {0}, "a/1": {0}}}},
+		Requests: []c27Request{rq}}
+}
+
+// Witness of C27-incomplete-backend-reply, replayed through the same runner and oracle.
+func TestVF_C27_Witness(t *testing.T) {
+	st := vfkit.NewStats("C27", "witness")
+	defer st.Flush()
+	var failing []string
+	for _, w := range []struct {
+		name    string
+		kind    string
+		version int16
+		shape   c27Behav
+	}{
+		{"produce v7, backend answers only a/0 of {a/0,a/1}", "produce", 7, c27Omit},
+		{"fetch v11, backend answers only a/0 of {a/0,a/1}", "fetch", 11, c27Omit},
+		{"produce v7, backend sends an empty body with error code 0", "produce", 7, c27EmptyBody},
+		{"fetch v11, backend sends an empty body with error code 0", "fetch", 11, c27EmptyBody},
+		{"produce v7, backend adds unrequested a/77", "produce", 7, c27Extra},
+		{"fetch v11, backend repeats the a/0 entry", "fetch", 11, c27DupEntry},
+	} {
+		st.Eval()
+		c := c27WitnessCase(w.kind, w.version, w.shape)
+		outs, log, herrs, err := c27Run(&c27Env{}, c)
+		if err != nil || len(herrs) > 0 || len(outs) != 1 {
+			fmt.Printf("VF-INCONCLUSIVE: witness %q could not run: %v %v\n", w.name, err, herrs)
+			t.Fatalf("VF-INCONCLUSIVE: witness %q could not run: %v %v", w.name, err, herrs)
+		}
+		v := c27Judge(c.Requests[0], 0, outs[0], log)
+		st.Class("witness:" + w.shape.String())
+		if v != "" {
+			failing = append(failing, w.name+" => "+v)
+			st.NonTrivial(w.name)
+			st.Sample(map[string]any{"witness": w.name, "violation": v})
+		}
+	}
+	st.KnownResult(c27FindingIncomplete, len(failing) > 0, strings.Join(failing, " | "))
+	t.Logf("%s: %d of 6 witnesses still violate the property", c27FindingIncomplete, len(failing))
 }
